@@ -76,7 +76,7 @@ let api_event (mw_ids : int list) (e : sstate event) : (int * string) option =
   | EInv (t, c) -> Some (int_of_n t, "INV " ^ token_of_call c)
   | ERet (t, c, r) -> Some (int_of_n t, Printf.sprintf "RET %s %s" (token_of_call c) (string_of_result r))
   | ECb (x, c) ->
-      let t = match x with XReducer -> 100 | XThread t -> int_of_n t | XChan s -> 200 + int_of_n s in
+      let t = match x with XReducer -> 100 | XThread t -> int_of_n t | XChan s -> 201 + 2 * int_of_n s in
       Some (t, string_of_cb mw_ids c)
   | EPanic t -> Some (int_of_n t, "PANIC")
   | _ -> None
@@ -91,6 +91,9 @@ let internal_event (e : sstate event) : string option =
   | EDrop a -> Some (Printf.sprintf "drop %d" (int_of_n a))
   | EReject a -> Some (Printf.sprintf "reject %d" (int_of_n a))
   | ESubDrop s -> Some (Printf.sprintf "subdrop %d" (int_of_n s))
+  | ESubSend (s, a) -> Some (Printf.sprintf "subsend %d %d" (int_of_n s) (int_of_n a))
+  | ESubRecv (s, a) -> Some (Printf.sprintf "subrecv %d %d" (int_of_n s) (int_of_n a))
+  | EReduced a -> Some (Printf.sprintf "reduced %d" (int_of_n a))
   | EWrite (a, _) -> Some (Printf.sprintf "write %d" (int_of_n a))
   | ESnapshot (a, l) -> Some (Printf.sprintf "snapshot %d [%s]" (int_of_n a) (string_of_ids l))
   | ESpawn (k, t) -> Some (Printf.sprintf "spawn %d as %d" (int_of_n k) (int_of_n t))
@@ -162,7 +165,7 @@ let step_line (kind : string) (w : mworld) (w' : mworld) (t : int) : string =
   (* a channeled thread created by subscribed_with *)
   let before = tids w in
   let news2 = List.filter_map (fun t' ->
-    if List.mem t' before || t' >= 1000 then None else Some (Printf.sprintf " NEW %d" t')) (tids w') in
+    if List.mem t' before || (t' >= 1000 && t' mod 2 = 0) then None else Some (Printf.sprintf " NEW %d" t')) (tids w') in
   Printf.sprintf "%s %d %s%s |%s" kind t (label_of w' t) (String.concat "" (news @ news2))
     (String.concat "" (List.map (fun s -> " ; " ^ s) mine))
 
@@ -174,7 +177,7 @@ let hist_lines (w : mworld) : string list =
     | _ -> (match internal_event e with Some s -> Some ("I " ^ s) | None -> None)) (List.rev w.w_hist)
 
 let end_lines (w : mworld) : string list =
-  let unfinished = List.filter (fun t -> not (finished w t)) (tids w) in
+  let unfinished = List.sort compare (List.filter (fun t -> not (finished w t)) (tids w)) in
   [ Printf.sprintf "END state=%s" (string_of_state w.w_state);
     Printf.sprintf "END metrics %s" (string_of_metrics w.w_metrics);
     Printf.sprintf "END unfinished=%s"
